@@ -8,7 +8,11 @@
 //	fixed: property=C16 <commit> <what failed>
 //
 // match is a conjunction of anchored regular expressions over signature fields
-// (a field absent from the signature is matched as the empty string).
+// (a field absent from the signature is matched as the empty string). The
+// special key "@sigs" names a file (relative to the known-findings file) that
+// lists complete signatures in canonical form, one per line: the entry then
+// matches exactly the listed (input, outcome) pairs and nothing else of the
+// same family.
 // `fixed:` lines suppress nothing.
 package kf
 
@@ -32,6 +36,7 @@ type Entry struct {
 	ID       string
 	What     string
 	Match    map[string]*regexp.Regexp
+	Sigs     map[string]bool // canonical signatures of "@sigs" (nil: not used)
 	Hits     int
 }
 
@@ -134,6 +139,23 @@ func Load(path, property string) ([]*Entry, error) {
 			return nil, fmt.Errorf("%s:%d: bad match JSON: %v", path, ln, err)
 		}
 
+		if sf, ok := m["@sigs"]; ok {
+			delete(m, "@sigs")
+
+			b, err := os.ReadFile(filepath.Join(filepath.Dir(path), sf))
+			if err != nil {
+				return nil, fmt.Errorf("%s:%d: signature list: %v", path, ln, err)
+			}
+
+			e.Sigs = map[string]bool{}
+
+			for _, l := range strings.Split(string(b), "\n") {
+				if l = strings.TrimSpace(l); l != "" && !strings.HasPrefix(l, "#") {
+					e.Sigs[l] = true
+				}
+			}
+		}
+
 		for k, v := range m {
 			re, err := regexp.Compile("^(?:" + v + ")$")
 			if err != nil {
@@ -150,6 +172,10 @@ func Load(path, property string) ([]*Entry, error) {
 }
 
 func (e *Entry) matches(s Sig) bool {
+	if e.Sigs != nil && !e.Sigs[s.String()] {
+		return false
+	}
+
 	for k, re := range e.Match {
 		if !re.MatchString(s[k]) {
 			return false
